@@ -149,33 +149,27 @@ class Impl:
             else:
                 self.http.server.ext_delete(i)
             return
-        # loopback: a second HTTP client (HEAD for the revision, then PUT / DELETE with it)
-        import urllib.request
-        import urllib.error
+        # loopback: a second HTTP client with its own connection pool (HEAD for the revision, then PUT / DELETE with it)
+        import urllib3
+        if not hasattr(self, "_ext_pm"):
+            self._ext_pm = urllib3.PoolManager()
         url = self.base + "/" + S.DB + "/" + S.quote(i)
-        rev = None
-        try:
-            with urllib.request.urlopen(urllib.request.Request(url, method="HEAD", headers={"X-Ext": "1"})) as r:
-                rev = r.headers["ETag"][1:-1]
-        except urllib.error.HTTPError:
-            pass
-        try:
-            if op[0] == "ext_put":
-                body: Dict[str, Any] = {"data": S.submodel_json(i, op[2])}
-                if rev is not None:
-                    body["_rev"] = rev
-                req = urllib.request.Request(url, method="PUT", data=json.dumps(body).encode(),
-                                             headers={"X-Ext": "1", "Content-type": "application/json"})
-            else:
-                req = urllib.request.Request(url + ("?rev=" + rev if rev else ""), method="DELETE", headers={"X-Ext": "1"})
-            urllib.request.urlopen(req).close()
-        except urllib.error.HTTPError:
-            pass
+        r = self._ext_pm.request("HEAD", url, headers={"X-Ext": "1"})
+        rev = r.headers["ETag"][1:-1] if r.status == 200 else None
+        if op[0] == "ext_put":
+            body: Dict[str, Any] = {"data": S.submodel_json(i, op[2])}
+            if rev is not None:
+                body["_rev"] = rev
+            self._ext_pm.request("PUT", url, body=json.dumps(body).encode(), headers={"X-Ext": "1", "Content-type": "application/json"})
+        elif rev is not None:
+            self._ext_pm.request("DELETE", url + "?rev=" + rev, headers={"X-Ext": "1"})
 
     def step(self, op: List[Any]) -> List[Any]:
         k = op[0]
         plan = op[-1] if k in PLANNED else []
         self.http.begin(plan)
+        if self.mode != "pool":
+            self._lb["absorb"] = None        # retries of a dropped request belong to the call that issued it
         out = self._do(op)
         return [out, self.http.log, self.view()]
 
@@ -317,24 +311,24 @@ def exhaustive_macros(tier: str, rng: random.Random) -> Tuple[List[List[tuple]],
     two = [(k, i) for i in (0, 1) for k in CLIENT_MACROS + EXT_MACROS]
     seqs: List[List[tuple]] = []
     if tier == "quick":
-        for L in range(1, 4):
-            seqs += [list(s) for s in itertools.product(one, repeat=L)]           # 8 + 64 + 512
-        for L in (2,):
-            seqs += [list(s) for s in itertools.product(two, repeat=L) if s[0][1] == 0]
-        pool4 = list(itertools.product(one, repeat=4))
-        seqs += [list(s) for s in rng.sample(pool4, 500)]
-        desc = "all interleavings (sequences over 6 SDK calls + 2 external writes) on one id up to length 3 and on two ids of length 2, 500 sampled of length 4"
+        for L in range(1, 5):
+            seqs += [list(s) for s in itertools.product(one, repeat=L)]           # 8 + 64 + 512 + 4096
+        seqs += [list(s) for s in itertools.product(two, repeat=2) if s[0][1] == 0]
+        pool3 = [s for s in itertools.product(two, repeat=3) if s[0][1] == 0 and any(x[1] == 1 for x in s)]
+        seqs += [list(s) for s in rng.sample(pool3, 800)]
+        desc = ("all interleavings (sequences over 6 SDK calls + 2 external writes) on one id up to length 4 (4680) and on two ids "
+                "of length 2, 800 sampled two-id interleavings of length 3")
     else:
-        for L in range(1, 6):
-            seqs += [list(s) for s in itertools.product(one, repeat=L)]           # 8..32768
+        for L in range(1, 7):
+            seqs += [list(s) for s in itertools.product(one, repeat=L)]           # 8 + … + 262144 = 299592
         for L in range(2, 5):
             seqs += [list(s) for s in itertools.product(two, repeat=L)
                      if s[0][1] == 0 and any(x[1] == 1 for x in s)]                # first op on id0 (symmetry), both ids used
-        pool6 = itertools.product(two, repeat=6)
-        # 16^6 is out of budget: a seeded sample of the length-6 two-id interleavings
-        seqs += [[rng.choice(two) for _ in range(6)] for _ in range(12000)]
-        desc = ("all interleavings on one id up to length 5 (37448), all on two ids up to length 4 with the first call on id0 "
-                "(id symmetry) and both ids used, 12000 sampled two-id interleavings of length 6")
+        # 16^5 / 16^6 two-id interleavings are out of budget: seeded samples
+        seqs += [[rng.choice(two) for _ in range(L)] for L in (5, 6) for _ in range(6000)]
+        desc = ("ALL interleavings (sequences over 6 SDK calls + 2 external writes) on one id up to length 6 (299592), all on two "
+                "ids up to length 4 with the first call on id0 (id symmetry) and both ids used, 12000 sampled two-id interleavings "
+                "of length 5 and 6")
     return seqs, desc
 
 
@@ -436,7 +430,7 @@ def gen_histories(ctx: C.Ctx, rng: random.Random):
     for s in fault_grid():
         hist.append((IDS2, s, True))
     n_grid = len(hist) - n_ex
-    for _ in range(ctx.budget(600, 12000)):
+    for _ in range(ctx.budget(1000, 12000)):
         n_ids = rng.choice([1, 2, 2, 3])
         ids = rng.sample(IDS_WIDE, n_ids)
         hist.append((ids, random_macros(rng, n_ids, rng.randint(4, 24), rng.choice([0.0, 0.15, 0.4])), rng.random() < 0.5))
@@ -505,55 +499,124 @@ class Tape:
         return dis
 
 
+def _mini_ctx(tier: str, seed: int) -> C.Ctx:
+    import time
+    return C.Ctx("C16", tier, seed, random.Random(f"C16:{seed}"), time.time(), 1)
+
+
+def _shard_histories(tier: str, seed: int, k: int, n: int):
+    """the k-th of n shards of the (deterministically regenerated) history list, with global indices"""
+    ctx = _mini_ctx(tier, seed)
+    hist, n_ex, n_grid, desc = gen_histories(ctx, random.Random(f"C16:{seed}"))
+    mine = [(gi, h) for gi, h in enumerate(hist) if gi % n == k]
+    total = len(hist)
+    del hist
+    # `drop` needs full gc.collect() calls: park everything allocated so far in the permanent generation so that each
+    # collection only walks the objects of the current history
+    gc.collect()
+    gc.freeze()
+    return mine, total, n_ex, n_grid, desc
+
+
+def _corr_shard(args) -> Dict[str, Any]:
+    """worker: runs its shard of histories on the implementation, pipes the same lines through the Lean driver (in chunks,
+    so that memory stays bounded) and returns disagreements + coverage counters"""
+    tier, seed, k, n = args
+    mine, total, n_ex, n_grid, desc = _shard_histories(tier, seed, k, n)
+    histo: Dict[str, int] = {}
+    nontrivial = set()
+    dis: List[Any] = []
+    samples: Dict[int, Any] = {}
+    want_samples = {n_ex - 1, n_ex + 7, n_ex + n_grid + 3}
+    impl = Impl("pool")
+    try:
+        for c0 in range(0, len(mine), 2500):
+            tape = Tape()
+            for gi, (ids, macros, fin) in mine[c0: c0 + 2500]:
+                ops, res = run_history(impl, ids, macros, fin)
+                tape.history(ops, res)
+                if gi in want_samples:
+                    samples[gi] = ops[:14]
+                for op, r in zip(ops, res):
+                    key = op[0] + ("!" if r[0][0] == "raise" or (r[0][0] == "handles" and r[0][2]) else "")
+                    histo[key] = histo.get(key, 0) + 1
+                    if op[0] in PLANNED:
+                        for f in op[-1]:
+                            if f is not None:
+                                histo["fault:" + str(f[1])] = histo.get("fault:" + str(f[1]), 0) + 1
+                if is_nontrivial(ops):
+                    nontrivial.add(C.sha(ops))
+            if len(dis) < 5:
+                dis += [d.__dict__ for d in tape.run()]
+    finally:
+        impl.close()
+    return {"evaluations": len(mine), "histogram": histo, "nontrivial": sorted(nontrivial), "dis": dis[:5], "samples": samples,
+            "meta": [total, n_ex, n_grid, desc]}
+
+
+def _loopback_shard(args) -> Dict[str, Any]:
+    tier, seed, n_hist = args
+    lrng = random.Random(f"C16:lb:{seed}")
+    impl = Impl("loopback")
+    tape = Tape()
+    try:
+        realisable = [f for f in ALL_FAULTS if f[0] == "status" or f[1] == "other"]
+        for n in range(n_hist):
+            n_ids = lrng.choice([1, 2, 3])
+            ids = lrng.sample(IDS_WIDE, n_ids)
+            macros = random_macros(lrng, n_ids, lrng.randint(3, 14), 0.0)
+            if n % 2:
+                macros = [(m, ([list(lrng.choice(realisable))] if lrng.random() < 0.25 else [])) for m, p in macros]
+            ops, res = run_history(impl, ids, macros, True)
+            tape.history(ops, res)
+    finally:
+        impl.close()
+    return {"evaluations": n_hist, "dis": [d.__dict__ for d in tape.run()][:5]}
+
+
+def _pool(jobs: int):
+    import multiprocessing
+    from concurrent.futures import ProcessPoolExecutor
+    return ProcessPoolExecutor(max_workers=jobs, mp_context=multiprocessing.get_context("fork"))
+
+
+def n_workers(ctx: C.Ctx) -> int:
+    return max(1, min(ctx.jobs, 4 if ctx.tier == "quick" else 10))
+
+
 def correspond(ctx: C.Ctx, cov: C.Coverage) -> List[C.Disagreement]:
     import urllib.parse
     from props import c16_server as S
-    rng = random.Random(f"C16:{ctx.seed}")
-    hist, n_ex, n_grid, desc = gen_histories(ctx, rng)
+    n = n_workers(ctx)
+    dis: List[C.Disagreement] = []
+    n_lb = 0
+    with _pool(n + 1) as ex:
+        futs = [ex.submit(_corr_shard, (ctx.tier, ctx.seed, k, n)) for k in range(n)]
+        lbf = ex.submit(_loopback_shard, (ctx.tier, ctx.seed, 3000)) if ctx.tier == "thorough" else None
+        results = [f.result() for f in futs]
+        lb = lbf.result() if lbf else None
+    total, n_ex, n_grid, desc = results[0]["meta"]
+    samples: Dict[int, Any] = {}
+    for r in results:
+        cov.evaluations += r["evaluations"]
+        for k_, v in r["histogram"].items():
+            cov.hit(k_, v)
+        cov.nontrivial.update(r["nontrivial"])
+        samples.update({int(a): b for a, b in r["samples"].items()})
+        dis += [C.Disagreement(**d) for d in r["dis"]]
+    if lb:
+        n_lb = lb["evaluations"]
+        cov.evaluations += n_lb
+        cov.hit("loopback-history", n_lb)
+        dis += [C.Disagreement("loopback: " + d["where"], d["case"], d["model"], d["impl"]) for d in lb["dis"]]
     cov.rule = (desc + f"; plus {n_grid} single-fault histories (every fault kind x processed/unprocessed at every request position of every "
                 "SDK call from 4 pre-states) and seeded random histories (1-3 ids out of a pool with '/', '?', '#', '%', space, non-ASCII; "
                 "length <= 24; mk/drop/contains/len/iter included; faults with p in {0, .15, .4}). After every call: outcome, the server's "
                 "request log (request + response) and the complete state (revision store, cache, every live object's id/payload/source, "
                 "server documents with revision counters) are compared with the model. non-trivial = the history has an external write "
                 "between a read/add and a later commit/delete of the same id, or an injected fault; distinct = by concrete op list")
+    # quoting: model vs the fake server's transcription (and that vs urllib); classification table: model vs do_request
     tape = Tape()
-    impl = Impl("pool")
-    try:
-        for hi, (ids, macros, fin) in enumerate(hist):
-            ops, res = run_history(impl, ids, macros, fin)
-            tape.history(ops, res)
-            for op, r in zip(ops, res):
-                cov.hit(op[0] + ("!" if r[0][0] == "raise" or (r[0][0] == "handles" and r[0][2]) else ""))
-                if op[0] in PLANNED:
-                    for f in op[-1]:
-                        if f is not None:
-                            cov.hit("fault:" + str(f[1]))
-            cov.evaluations += 1
-            if is_nontrivial(ops):
-                cov.nontrivial.add(C.sha(ops))
-    finally:
-        impl.close()
-    # loopback tier: the same comparison through real sockets
-    n_lb = 0
-    if ctx.tier == "thorough":
-        lrng = random.Random(f"C16:lb:{ctx.seed}")
-        impl = Impl("loopback")
-        try:
-            realisable = [f for f in ALL_FAULTS if f[0] == "status" or f[1] == "other"]
-            for n in range(700):
-                n_ids = lrng.choice([1, 2, 3])
-                ids = lrng.sample(IDS_WIDE, n_ids)
-                macros = random_macros(lrng, n_ids, lrng.randint(3, 14), 0.0)
-                if n % 2:
-                    macros = [(m, ([list(lrng.choice(realisable))] if lrng.random() < 0.25 else [])) for m, p in macros]
-                ops, res = run_history(impl, ids, macros, True)
-                tape.history(ops, res)
-                n_lb += 1
-                cov.evaluations += 1
-                cov.hit("loopback-history")
-        finally:
-            impl.close()
-    # quoting: model vs the fake server's transcription (and that vs urllib)
     qc = quote_cases(ctx.tier)
     for b in qc:
         q = S.quote(tuple(b))
@@ -564,7 +627,6 @@ def correspond(ctx: C.Ctx, cov: C.Coverage) -> List[C.Disagreement]:
             return [C.Disagreement("fake server quote vs urllib.parse.quote", s, S.quote(tuple(idb(s))), urllib.parse.quote(s, safe=""))]
     for raw in ["%zz", "%4", "%", "a%2fb", "%41%", "%%41", "\u00ff", "%C3%A4", "\u0100a"]:
         tape.add(["unquote", raw], list(S.unquote(raw)), (-1, 2))
-    # classification table: model vs do_request driven directly
     ct = classification_cases()
     impl = Impl("pool")
     try:
@@ -573,12 +635,13 @@ def correspond(ctx: C.Ctx, cov: C.Coverage) -> List[C.Disagreement]:
             cov.hit("classify")
     finally:
         impl.close()
-    cov.extra.update({"exhaustive_histories": n_ex, "fault_grid_histories": n_grid, "random_histories": len(hist) - n_ex - n_grid,
+    dis += tape.run()
+    cov.extra.update({"exhaustive_histories": n_ex, "fault_grid_histories": n_grid, "random_histories": total - n_ex - n_grid,
                       "loopback_histories": n_lb, "classification_cases": len(ct), "quote_cases": len(qc),
-                      "neutral_zones": NEUTRAL})
+                      "neutral_zones": NEUTRAL, "workers": n})
     cov.exhaustive = True
-    cov.samples = [json.loads(tape.ops[n_ex - 1]), json.loads(tape.ops[n_ex + 7]), json.loads(tape.ops[n_ex + n_grid + 3])[:14]]
-    return tape.run()
+    cov.samples = [samples[k_] for k_ in sorted(samples)]
+    return dis[:5]
 
 
 def classification_cases():
@@ -827,40 +890,59 @@ def check_ops(ops: List[List[Any]], mode: str = "pool", impl: Optional[Impl] = N
             impl.close()
 
 
-def oracle(ctx: C.Ctx, cov: C.Coverage) -> List[C.Failing]:
-    rng = random.Random(f"C16:{ctx.seed}")
-    hist, n_ex, n_grid, _ = gen_histories(ctx, rng)
-    out: List[C.Failing] = []
+def _oracle_shard(args) -> List[Dict[str, Any]]:
+    tier, seed, k, n = args
+    out: List[Dict[str, Any]] = []
     sigs = set()
-    impl = Impl("pool")
-    try:
-        # the oracle judges concrete op lists; they are produced by running the macros once
-        for (ids, macros, fin) in hist:
-            ops, _ = run_history(impl, ids, macros, fin)
-            f = check_ops(ops, impl=impl)
-            if f and f.sig not in sigs:
-                sigs.add(f.sig)
-                f.case = minimise(f, impl)
-                out.append(f)
-        cov.extra["oracle_histories"] = len(hist)
-    finally:
-        impl.close()
-    if ctx.tier == "thorough":
-        lrng = random.Random(f"C16:lb-oracle:{ctx.seed}")
+    if k == "loopback":
+        lrng = random.Random(f"C16:lb-oracle:{seed}")
         impl = Impl("loopback")
         try:
-            for n in range(300):
+            for _ in range(1500):
                 n_ids = lrng.choice([1, 2, 3])
                 ids = lrng.sample(IDS_WIDE, n_ids)
                 macros = random_macros(lrng, n_ids, lrng.randint(3, 14), 0.0)
-                ops, _ = run_history(impl, ids, macros, True)
+                ops, _r = run_history(impl, ids, macros, True)
                 f = check_ops(ops, impl=impl)
                 if f and f.sig not in sigs:
                     sigs.add(f.sig)
                     f.what += " (through real sockets on 127.0.0.1)"
-                    out.append(f)
+                    out.append(f.__dict__)
         finally:
             impl.close()
+        return out
+    mine, _total, _a, _b, _c = _shard_histories(tier, seed, k, n)
+    impl = Impl("pool")
+    try:
+        # the oracle judges concrete op lists; they are produced by running the macros once
+        for _gi, (ids, macros, fin) in mine:
+            ops, _r = run_history(impl, ids, macros, fin)
+            f = check_ops(ops, impl=impl)
+            if f and f.sig not in sigs:
+                sigs.add(f.sig)
+                f.case = minimise(f, impl)
+                out.append(f.__dict__)
+    finally:
+        impl.close()
+    return out
+
+
+def oracle(ctx: C.Ctx, cov: C.Coverage) -> List[C.Failing]:
+    n = n_workers(ctx)
+    with _pool(n + 1) as ex:
+        futs = [ex.submit(_oracle_shard, (ctx.tier, ctx.seed, k, n)) for k in range(n)]
+        if ctx.tier == "thorough":
+            futs.append(ex.submit(_oracle_shard, (ctx.tier, ctx.seed, "loopback", n)))
+        res = [f.result() for f in futs]
+    out: List[C.Failing] = []
+    sigs = set()
+    for r in res:
+        for d in r:
+            if d["sig"] not in sigs:
+                sigs.add(d["sig"])
+                out.append(C.Failing(**d))
+    cov.extra["oracle_histories"] = cov.extra.get("exhaustive_histories", 0) + cov.extra.get("fault_grid_histories", 0) + \
+        cov.extra.get("random_histories", 0) + (1500 if ctx.tier == "thorough" else 0)
     return out
 
 
